@@ -64,9 +64,11 @@ func totalAlloc() uint64 {
 // measure runs f once on the calling goroutine and returns panic, stack and the
 // number of bytes allocated meanwhile.
 func measure(f func()) (r callResult) {
+	callSeq.Add(1) // odd: the hang watchdog is armed
 	before := totalAlloc()
 	r.Panic, r.Stack = stats.NoPanic(f)
 	r.Alloc = totalAlloc() - before
+	callSeq.Add(1)
 	return r
 }
 
@@ -76,7 +78,6 @@ func measure(f func()) (r callResult) {
 // stray allocation by a runtime or transport goroutine cannot raise a false alarm.
 func guarded(test string, inputLen int, slack uint64, f func()) callResult {
 	callTest.Store(test)
-	callSeq.Add(1)
 	r := measure(f)
 	if r.Panic == nil && r.Alloc > allocBudget(inputLen, slack) {
 		first := r.Alloc
@@ -93,7 +94,6 @@ func guarded(test string, inputLen int, slack uint64, f func()) callResult {
 			debug.FreeOSMemory()
 		}
 	}
-	callSeq.Add(1)
 	journalClear()
 	return r
 }
